@@ -107,6 +107,21 @@ check('C09', 'exploration',
       'deterministic simulation: seeded delivery orders of label/reference events, confluence check over the recorded history, two transports',
       'DESIGN.md 5.4')
 
+check('C04', 'exploration',
+      'Seeded balanced histories (<=40 ops, nesting <=6) of OPEN/CLOSE over 8 group kinds ({}, \\begingroup, center, quote, '
+      '$ $, tabular cells, \\textbf/\\mbox arguments) mixed with local/global definitions, \\let, \\catcode, \\newif setters '
+      'and counter steps, refined step by step against a frame-stack reference model over two transports: the Context API '
+      '(depth, every name, catcode, switch and counter compared after every op) and the same history compiled to TeX source '
+      'and parsed by the real TeX (textContent of probe markers, final stack depth).',
+      'Trusted: the ~60-line frame-stack model and the TeX-transport compiler. Normal form of the TeX transport (each rule keeps '
+      'a lexer look-ahead artefact - C01/C05 matters - out of this check): \\catcode`\\@=N\\relax; every PROBE preceded by a '
+      'one-letter marker; no catcode op inside an argument group; $ followed by a blank (no accidental $$). \\gdef writes the '
+      'bottom frame and may be shadowed by a live local definition. No fault/schedule dimension exists for this property: only '
+      'the sequential core of the technique applies; the statement\'s "exhaustive up to a bound" part is approximated by '
+      'short histories getting a large share of the runs.',
+      'deterministic simulation (seeded operation histories vs executable reference model over API and TeX-source transports, minimised replay); empty fault space',
+      'DESIGN.md 5.5')
+
 NA = [
  ('C01', 'pure function of (text, catcode table): no schedule, clock, fault or history in the statement; would need a second lexer as oracle (differential testing, another family)'),
  ('C02', 'pure function of the macro program; oracle would be an independent TeX expander (differential testing)'),
